@@ -56,6 +56,10 @@ type c08Case struct {
 	Tags       map[string]string `json:"tags"`
 	Queries    []c08Query        `json:"queries"`
 	Deliveries []int             `json:"deliveries"` // query index (mod len) per delivery; first occurrence = first sight
+	// QueryBuf, when non-zero, is the size of the receiver's recent-query buffer
+	// (default 512): small values make hand-built Lamport times collide on
+	// buffer slots and fall out of the retention window
+	QueryBuf int `json:"query_buf,omitempty"`
 }
 
 var (
@@ -104,7 +108,11 @@ func genC08(t *rapid.T) c08Case {
 			c.Tags[tn] = rapid.SampledFrom(c08TagValues).Draw(t, "val-"+tn)
 		}
 	}
+	c.QueryBuf = rapid.SampledFrom([]int{0, 0, 0, 4, 8}).Draw(t, "querybuf")
 	nq := rapid.IntRange(1, 5).Draw(t, "nq")
+	if c.QueryBuf != 0 {
+		nq = rapid.IntRange(2, 7).Draw(t, "nq-small-buffer")
+	}
 	for i := 0; i < nq; i++ {
 		q := c08Query{
 			Via:     rapid.SampledFrom([]int{0, 1, 1}).Draw(t, "via"),
@@ -211,7 +219,11 @@ func bodyC08(c c08Case, x *vkit.Ctx) {
 	recvName := c08RecvNames[c.Recv%len(c08RecvNames)]
 	pool := c08NamePool(recvName)
 	rnet := simnet.New(1)
-	recv := mkNode(x, rnet, node.Opts{Name: recvName, Quiet: true, Tags: c.Tags})
+	recv := mkNode(x, rnet, node.Opts{Name: recvName, Quiet: true, Tags: c.Tags, Mutate: func(sc *serf.Config) {
+		if c.QueryBuf > 0 {
+			sc.QueryBuffer = c.QueryBuf
+		}
+	}})
 	if recv == nil {
 		return
 	}
@@ -342,12 +354,35 @@ func bodyC08(c c08Case, x *vkit.Ctx) {
 		k := key{m.LTime, m.ID}
 		first := !seen[k]
 		seen[k] = true
+		// retention window of the receiver (matters with a small buffer): a query
+		// older than the window may be dropped at first sight; a repeat is never
+		// delivered again, inside or outside the window
+		tooOld := false
+		var qclock serf.LamportTime
+		if c.QueryBuf > 0 {
+			_, _, qclock = recv.Serf.VerifClocks()
+			after := qclock
+			if m.LTime+1 > after {
+				after = m.LTime + 1
+			}
+			n := serf.LamportTime(c.QueryBuf)
+			tooOld = after > n && m.LTime < after-n
+			if tooOld {
+				x.Label("outside-retention-window")
+			}
+			for o := range seen {
+				if o != k && o.lt != m.LTime && o.lt%n == m.LTime%n {
+					x.Label("slot-collision")
+					break
+				}
+			}
+		}
 		ackAsked := m.Flags&serf.VerifQueryFlagAck != 0
 		nobc := m.Flags&serf.VerifQueryFlagNoBroadcast != 0
 		internal := strings.HasPrefix(m.Name, "_serf_")
-		wantApp := selected && first && !internal
-		wantAck := selected && first && ackAsked
-		wantQueued := first && !nobc
+		wantApp := selected && first && !internal && !tooOld
+		wantAck := selected && first && ackAsked && !tooOld
+		wantQueued := first && !nobc && !tooOld
 		if interesting && hits > 0 && misses > 0 {
 			nontrivial = true
 		}
@@ -367,13 +402,22 @@ func bodyC08(c c08Case, x *vkit.Ctx) {
 
 		// barrier query: arrives on the application channel after whatever the delivery produced
 		bname := fmt.Sprintf("barrier-%d", di)
-		recv.Delegate.NotifyMsg(mustEncode(serf.VerifMessageQueryType, foreignQuery(uint64(100+di), uint32(0xF0000000+di), bname, nil)))
+		blt := uint64(100 + di)
+		if c.QueryBuf > 0 {
+			// stay inside the small window: the barrier carries the current clock value
+			_, _, now := recv.Serf.VerifClocks()
+			blt = uint64(now)
+		}
+		recv.Delegate.NotifyMsg(mustEncode(serf.VerifMessageQueryType, foreignQuery(blt, uint32(0xF0000000+di), bname, nil)))
 		_, before, ok := waitQuery(recv, bname, 5*time.Second)
 		if !ok {
 			x.Inconclusive("barrier query not delivered")
 			return
 		}
 
+		if first && tooOld {
+			continue // first sight outside the window: the node may drop it; nothing to assert
+		}
 		// 1. application
 		var got []*serf.Query
 		for _, e := range before {
